@@ -36,6 +36,12 @@ CHECKS["C08"] = ("two-phase property-based testing (proptest): event roots place
 CHECKS["C09"] = ("two-phase property-based testing (proptest): sign pattern of g at the accepted steps vs reported events (exactly-one / none matching)",
          "Same two-phase placement; for every function and step the strict sign pattern at the step ends decides whether exactly one, none or any event may be attributed to the step; single-root time events must be found exactly once and located to 4e-12.",
          "Exact zeros at step ends are skipped (SciPy semantics, as the property allows).", "DESIGN.md §4 C09")
+CHECKS["C05"] = ("two-phase metamorphic property-based testing (proptest): requested times placed on / beside / between the plain run's step ends; bitwise comparison with t_eval and with the dense twin's Solution::sol",
+         "Requested times are generated relative to the solver's own step grid (on a step end, 1e-13..1e-9 beside it, mid-step, duplicates, x0, xend), with terminal / non-terminal events and step budgets; exact oracles (bit equality of times and of interpolated values) plus the C01 accuracy bound and the early-stop completeness rule.",
+         "Handler resolution 1e-12 as documented; accuracy constant as in C01.", "DESIGN.md §4 C05")
+CHECKS["C10"] = ("two-phase differential property-based testing (proptest): the same run with and without the terminal flags (twin), bit-identical prefix",
+         "Event roots placed relative to the step grid (several functions in one step, either order), occurrence counts 1..3, with/without t_eval and dense output; the twin run without terminal flags defines where the run must stop and what must have been reported before.",
+         "Ties of two terminal functions at the same instant skipped.", "DESIGN.md §4 C10")
 PENDING = {}
 
 def main():
